@@ -906,3 +906,28 @@ Example ex_key_admits_after_failed_basic :
   let s := mksec [] NoCreds 401 [[SKey (KeyBad 403); SBasic]; [SBasic; SKey KeyGood]; [SKey KeyGood]] in
   sec_admitted s = true /\ sec_challenge_realm s = API_REALM.
 Proof. vm_compute. split; reflexivity. Qed.
+
+(* ---- the error responder in force ---- *)
+Lemma last_app_nonempty {A} (l l' : list A) d : l' <> [] -> last (l ++ l') d = last l' d.
+Proof.
+  intros NE. induction l as [|x l IH]; [reflexivity|].
+  cbn [app]. destruct (l ++ l') eqn:E.
+  - destruct l; [cbn in E; contradiction|discriminate].
+  - cbn [last]. exact IH.
+Qed.
+
+(* where the Context was built among the assignments does not matter *)
+Theorem responder_construction_point_irrelevant a b c :
+  responder_in_force (mkrcfg (a ++ b) c) = responder_in_force (mkrcfg a (b ++ c)).
+Proof. unfold responder_in_force. cbn [rc_before rc_after]. now rewrite app_assoc. Qed.
+
+(* a responder assigned after the Context was built is the one invoked *)
+Theorem responder_assigned_later_wins before after r :
+  responder_in_force (mkrcfg before (after ++ [r])) = r.
+Proof.
+  unfold responder_in_force. cbn [rc_before rc_after]. rewrite app_assoc.
+  rewrite last_app_nonempty by discriminate. reflexivity.
+Qed.
+
+Theorem responder_default_until_assigned : responder_in_force (mkrcfg [] []) = DEFAULT_RESPONDER.
+Proof. reflexivity. Qed.
